@@ -68,6 +68,9 @@ pub use rounding::{
 mod parser;
 mod powers_of_ten;
 mod rounding;
+#[cfg(feature = "verif-hooks")]
+#[doc(hidden)]
+pub mod verif;
 
 /// The maximum number of fractional decimal digits supported by `Decimal`.
 pub const MAX_N_FRAC_DIGITS: u8 = 18;
@@ -300,7 +303,11 @@ const fn u128_mul_u128(x: u128, y: u128) -> (u128, u128) {
 #[inline(always)]
 #[allow(clippy::integer_division)]
 fn u256_idiv_u64(xh: &mut u128, xl: &mut u128, y: u64) -> u128 {
+    #[cfg(feature = "verif-hooks")]
+    verif::hit(verif::IDIV64);
     if y == 1 {
+        #[cfg(feature = "verif-hooks")]
+        verif::hit(verif::IDIV64_Y1);
         return 0;
     }
     let y = y as u128;
@@ -330,9 +337,17 @@ fn u256_idiv_u64(xh: &mut u128, xl: &mut u128, y: u64) -> u128 {
 fn u256_idiv_u128_special(xh: &mut u128, xl: &mut u128, mut y: u128) -> u128 {
     debug_assert!(*xh < y);
     const B: u128 = 1 << 64;
+    #[cfg(feature = "verif-hooks")]
+    verif::hit(verif::KNUTH);
     // Normalize dividend and divisor, so that y > 2^127 (i.e. highest bit
     // set)
     let n_bits = 127 - u128_msb(y);
+    #[cfg(feature = "verif-hooks")]
+    if n_bits == 0 {
+        verif::hit(verif::KNUTH_NBITS0);
+    }
+    #[cfg(feature = "verif-hooks")]
+    let mut vh_n_dec = 0_u32;
     y <<= n_bits;
     let yn1 = u128_hi(y);
     let yn0 = u128_lo(y);
@@ -353,11 +368,22 @@ fn u256_idiv_u128_special(xh: &mut u128, xl: &mut u128, mut y: u128) -> u128 {
     // so that
     // q1 * yn1 * 2^64 + rhat * 2^64 + xn1 = xn32 * 2^64 + xn1
     while q1 >= B || q1 * yn0 > rhat * B + xn1 {
+        #[cfg(feature = "verif-hooks")]
+        {
+            vh_n_dec += 1;
+        }
         q1 -= 1;
         rhat += yn1;
         if rhat >= B {
+            #[cfg(feature = "verif-hooks")]
+            verif::hit(verif::KNUTH_Q1_BREAK);
             break;
         }
+    }
+    #[cfg(feature = "verif-hooks")]
+    {
+        verif::hit_n(verif::KNUTH_Q1_DEC1, vh_n_dec);
+        vh_n_dec = 0;
     }
     // The loop did not change the equation given above. It was terminated if
     // either q1 < 2^64 or rhat >= 2^64 or q1 * yn0 > rhat * 2^64 + xn1.
@@ -378,12 +404,20 @@ fn u256_idiv_u128_special(xh: &mut u128, xl: &mut u128, mut y: u128) -> u128 {
     let mut q0 = t / yn1;
     rhat = t % yn1;
     while q0 >= B || q0 * yn0 > rhat * B + xn0 {
+        #[cfg(feature = "verif-hooks")]
+        {
+            vh_n_dec += 1;
+        }
         q0 -= 1;
         rhat += yn1;
         if rhat >= B {
+            #[cfg(feature = "verif-hooks")]
+            verif::hit(verif::KNUTH_Q0_BREAK);
             break;
         }
     }
+    #[cfg(feature = "verif-hooks")]
+    verif::hit_n(verif::KNUTH_Q0_DEC1, vh_n_dec);
     // Write back result
     *xh = 0;
     *xl = q1 * B + q0;
@@ -404,6 +438,8 @@ fn u256_idiv_u128(xh: &mut u128, xl: &mut u128, y: u128) -> u128 {
     if *xh < y {
         return u256_idiv_u128_special(xh, xl, y);
     }
+    #[cfg(feature = "verif-hooks")]
+    verif::hit(verif::IDIV128_HI_GE);
     let mut t = *xh % y;
     let r = u256_idiv_u128_special(&mut t, xl, y);
     *xh /= y;
@@ -425,6 +461,8 @@ pub fn i128_shifted_div_mod_floor(
         u128_mul_u128(x.unsigned_abs(), ten_pow(p) as u128);
     let r = u256_idiv_u128(&mut xh, &mut xl, y.unsigned_abs());
     if xh != 0 || xl > i128::MAX as u128 {
+        #[cfg(feature = "verif-hooks")]
+        verif::hit(verif::SHDM_NONE);
         return None;
     }
     // xl <= i128::MAX, so xl as i128 is safe.
@@ -433,14 +471,22 @@ pub fn i128_shifted_div_mod_floor(
     let mut r = r as i128;
     if x.is_negative() {
         if y.is_negative() {
+            #[cfg(feature = "verif-hooks")]
+            verif::hit(verif::SHDM_NEG_NEG);
             r = r.neg();
         } else if r != 0 {
+            #[cfg(feature = "verif-hooks")]
+            verif::hit(verif::SHDM_NEG_POS);
             q = q.neg() - 1;
             r = y - r;
         } else {
+            #[cfg(feature = "verif-hooks")]
+            verif::hit(verif::SHDM_EXACT_NEG);
             q = q.neg();
         }
     } else if y.is_negative() {
+        #[cfg(feature = "verif-hooks")]
+        verif::hit(verif::SHDM_POS_NEG);
         q = q.neg() - 1;
         r -= y;
     }
@@ -463,6 +509,8 @@ pub fn i256_div_mod_floor(
         u128_mul_u128(x1.unsigned_abs(), x2.unsigned_abs());
     let r = u256_idiv_u128(&mut xh, &mut xl, y.unsigned_abs());
     if xh != 0 || xl > i128::MAX as u128 {
+        #[cfg(feature = "verif-hooks")]
+        verif::hit(verif::I256_NONE);
         return None;
     }
     // xl <= i128::MAX, so xl as i128 is safe.
@@ -471,9 +519,13 @@ pub fn i256_div_mod_floor(
     let mut r = r as i128;
     if x1.is_negative() != x2.is_negative() {
         if r != 0 {
+            #[cfg(feature = "verif-hooks")]
+            verif::hit(verif::I256_NEG);
             q = q.neg() - 1;
             r = y - r;
         } else {
+            #[cfg(feature = "verif-hooks")]
+            verif::hit(verif::I256_EXACT_NEG);
             q = q.neg();
         }
     }
